@@ -40,4 +40,102 @@ import "time"
 //@   requires !t.After(u)
 //@   ensures !TimeFromTime64(Time64FromTime(t), t0).After(TimeFromTime64(Time64FromTime(u), t0))
 
-var _ time.Time
+
+//@ func ClockOffset
+//@   ensures nowrap: -4611686018427387904 < t1.Sub(t0) && t1.Sub(t0) < 4611686018427387904 && -4611686018427387904 < t2.Sub(t3) && t2.Sub(t3) < 4611686018427387904 ==> mathint(result) == (mathint(t1.Sub(t0))+mathint(t2.Sub(t3)))/2
+
+//@ func RoundTripDelay
+//@   ensures nowrap: -4611686018427387904 < t3.Sub(t0) && t3.Sub(t0) < 4611686018427387904 && -4611686018427387904 < t2.Sub(t1) && t2.Sub(t1) < 4611686018427387904 ==> mathint(result) == mathint(t3.Sub(t0))-mathint(t2.Sub(t1))
+
+// Half-round-trip bound: a server whose clock is theta ahead of the client's, forward delay d1,
+// processing time p and backward delay d2 (all >= 0): the computed offset is within half the
+// computed round-trip delay (plus 1 ns of integer rounding) of theta.
+//@ lemma halfRTT(t0 time.Time, d1 time.Duration, p time.Duration, d2 time.Duration, theta time.Duration)
+//@   requires 0 <= t0.Unix() && t0.Unix() <= 1099511627776
+//@   requires 0 <= d1 && d1 <= 1000000000000000 && 0 <= p && p <= 1000000000000000 && 0 <= d2 && d2 <= 1000000000000000
+//@   requires -1000000000000000000 <= theta && theta <= 1000000000000000000
+//@   ensures mathint(ClockOffset(t0, t0.Add(d1+theta), t0.Add(d1+p+theta), t0.Add(d1+p+d2)))-mathint(theta) <= mathint(RoundTripDelay(t0, t0.Add(d1+theta), t0.Add(d1+p+theta), t0.Add(d1+p+d2)))/2+1
+//@   ensures mathint(theta)-mathint(ClockOffset(t0, t0.Add(d1+theta), t0.Add(d1+p+theta), t0.Add(d1+p+d2))) <= mathint(RoundTripDelay(t0, t0.Add(d1+theta), t0.Add(d1+p+theta), t0.Add(d1+p+d2)))/2+1
+//@   ensures RoundTripDelay(t0, t0.Add(d1+theta), t0.Add(d1+p+theta), t0.Add(d1+p+d2)) == d1+d2
+
+//@ func ValidateResponseMetadata
+//@   requires resp != nil
+//@   ensures iff: (result == nil) == (resp.LVM>>6 != 3 && ((resp.LVM>>3)&7 == 3 || (resp.LVM>>3)&7 == 4) && resp.LVM&7 == 4 && 1 <= resp.Stratum && resp.Stratum <= 15)
+
+//@ func ValidateResponseTimestamps
+//@   panics when t3.Sub(t0) < 0
+//@   ensures iff: (result == nil) == (t2.Sub(t1) >= 0)
+
+//@ func ValidateRequest
+//@   requires req != nil
+//@   ensures iff: (result == nil) == ((req.LVM>>6 == 0 || req.LVM>>6 == 3) && ((2 <= (req.LVM>>3)&7 && (req.LVM>>3)&7 <= 4 && req.LVM&7 == 3) || ((req.LVM>>3)&7 == 1 && req.LVM&7 == 0)))
+
+//@ func (*Packet).LeapIndicator
+//@   requires p != nil
+//@   ensures bits: result == p.LVM>>6
+//@ func (*Packet).Version
+//@   requires p != nil
+//@   ensures bits: result == (p.LVM>>3)&7
+//@ func (*Packet).Mode
+//@   requires p != nil
+//@   ensures bits: result == p.LVM&7
+
+//@ func (*Packet).SetLeapIndicator
+//@   requires p != nil
+//@   panics when l > 3
+//@   modifies p.LVM
+//@   ensures set: p.LVM>>6 == l && p.LVM&63 == old(p.LVM)&63
+//@ func (*Packet).SetVersion
+//@   requires p != nil
+//@   panics when v > 7
+//@   modifies p.LVM
+//@   ensures set: (p.LVM>>3)&7 == v && p.LVM&199 == old(p.LVM)&199
+//@ func (*Packet).SetMode
+//@   requires p != nil
+//@   panics when m > 7
+//@   modifies p.LVM
+//@   ensures set: p.LVM&7 == m && p.LVM&248 == old(p.LVM)&248
+
+//@ func EncodePacket
+//@   inline
+//@   requires b != nil && pkt != nil
+//@   modifies *b, (*b)[:]
+//@   allocates
+//@   ensures length: len(*b) == 48
+//@   ensures first: (*b)[0] == pkt.LVM && (*b)[1] == pkt.Stratum
+
+//@ func DecodePacket
+//@   inline
+//@   requires pkt != nil
+//@   modifies *pkt
+//@   ensures short: (result != nil) == (len(b) < 48)
+//@   ensures first: result == nil ==> pkt.LVM == b[0] && pkt.Stratum == b[1]
+
+// Ghost harnesses (compiled only with the tag): the two compositions of the real codec.
+
+func verifEncodeDecode(p *Packet) (q Packet, err error) {
+	var b []byte
+	EncodePacket(&b, p)
+	err = DecodePacket(&q, b)
+	return
+}
+
+//@ func verifEncodeDecode
+//@   requires p != nil
+//@   ensures roundtrip: err == nil && q == *p
+
+func verifDecodeEncode(b []byte) (ok bool, out []byte) {
+	var p Packet
+	if DecodePacket(&p, b) != nil {
+		return false, nil
+	}
+	var o []byte
+	EncodePacket(&o, &p)
+	return true, o
+}
+
+//@ func verifDecodeEncode
+//@   ensures reencode: len(b) >= 48 ==> ok && len(out) == 48 && forall(i, 0, 48, out[i] == b[i])
+//@   ensures short: len(b) < 48 ==> !ok
+
+var _ time.Time // the lemmas above name package time
